@@ -14,6 +14,25 @@ if [ "${SKIP_REPO_TESTS:-0}" != 1 ]; then
   if ! (cd "$D" && go test -vet=off -count=1 -timeout 900s ./... >"$D/.tests.log" 2>&1); then echo "FAILS-REPO-TESTS"; grep -E "^(---|FAIL)" "$D/.tests.log" | head -5; exit 3; fi
   echo "repo tests pass with the change"
 fi
+# demonstration: must pass on the clean tree and fail with the change
+demo=$(ls "$dir"/*_test.go 2>/dev/null | head -1)
+if [ -n "$demo" ]; then
+  cmdline=$(grep -E "go test .*-run" "$demo" | head -1)
+  pkg=$(echo "$cmdline" | grep -oE '\./[A-Za-z0-9_/]+' | tail -1)
+  pat=$(echo "$cmdline" | sed -E "s/.*-run[ =]+'?([^' ]+)'?.*/\1/")
+  race=""; echo "$cmdline" | grep -q -- "-race" && race="-race"
+  if [ -n "$pkg" ] && [ -n "$pat" ]; then
+    C=$(mktemp -d /tmp/seedclean.XXXXXX); cp -r /repo/. "$C/"
+    cp "$demo" "$C/$pkg/zz_seed_demo_test.go"; cp "$demo" "$D/$pkg/zz_seed_demo_test.go"
+    (cd "$C" && go test $race -vet=off -count=1 -timeout 600s -run "$pat" "$pkg/" >"$C/.demo.log" 2>&1); rc_clean=$?
+    (cd "$D" && go test $race -vet=off -count=1 -timeout 600s -run "$pat" "$pkg/" >"$D/.demo.log" 2>&1); rc_mut=$?
+    echo "demo ($pkg -run $pat $race): clean rc=$rc_clean, with change rc=$rc_mut"
+    if [ $rc_clean -ne 0 ] || [ $rc_mut -eq 0 ]; then echo "DEMO-NOT-CONFIRMED"; tail -5 "$C/.demo.log"; tail -5 "$D/.demo.log"; fi
+    rm -f "$D/$pkg/zz_seed_demo_test.go"; rm -rf "$C"
+  else
+    echo "demo: could not parse the run command from $demo"
+  fi
+fi
 for p in "$prop" "$@"; do
   out=$(cd /verif && VERIF_REPO="$D" VERIF_BUILD="/verif/.build/seed-$p" ./check "$p" "$tier" 2>&1)
   rc=$?
